@@ -573,6 +573,12 @@ func runL0(seed int64, n int, dir string) error {
 			emit("lww", in, out)
 		}
 	}
+	for _, pass := range [][]byte{{}, nil, []byte("p"), []byte("a longer passphrase")} {
+		id++
+		fmt.Fprintf(cw, "%d probe stored-plaintext x%x\n", id, pass)
+		fmt.Fprintf(iw, "%d %s\n", id, probeStoredPlaintext(pass))
+		stats["probe_stored_plaintext"]++
+	}
 	sf, _ := os.Create(dir + "/stats.txt")
 	defer sf.Close()
 	for k, v := range stats {
